@@ -971,6 +971,7 @@ class _Ctx:
 # how often each test has been executed in this process (tests whose
 # outcome depends on the execution number: kinds_seq)
 EXEC_COUNT = {}
+RAN_IN_PROCESS = set()
 
 
 def _tspec(self):
@@ -985,6 +986,16 @@ def _effective_kind(self, ts, tid):
     """kinds_seq = [kind of the 1st execution in this process, of the 2nd,
     ...] (the last entry repeats): a test that fails only the first time,
     or only from the second --repeat iteration on."""
+    dep = ts.get('fails_after')
+    if dep:
+        # a test whose outcome depends on the order: it fails when another
+        # test of its class has been run before it in this process
+        other = tid.rsplit('.', 1)[0] + '.' + dep
+        kind = 'fail' if other in RAN_IN_PROCESS else 'pass'
+        RAN_IN_PROCESS.add(tid)
+        self._v_kind = kind
+        return kind
+    RAN_IN_PROCESS.add(tid)
     seq = ts.get('kinds_seq')
     if not seq:
         return ts['kind']
